@@ -7,12 +7,14 @@ import (
 	"fmt"
 	"math/big"
 	"sync"
+	"sync/atomic"
 	"testing"
 	"testing/synctest"
 	"time"
 
 	"github.com/smartcontractkit/libocr/offchainreporting2plus/ocr3types"
 
+	"github.com/smartcontractkit/chainlink-automation/pkg/util"
 	"github.com/smartcontractkit/chainlink-automation/pkg/v3/config"
 	"github.com/smartcontractkit/chainlink-automation/pkg/v3/coordinator"
 	"github.com/smartcontractkit/chainlink-automation/pkg/v3/plugin"
@@ -877,6 +879,99 @@ func c07Edge() []c06Input {
 	return out
 }
 
+// ---------------------------------------------------------------- GC race stress (real goroutines)
+
+type c06RaceInput struct {
+	Kind   string `json:"kind"`
+	Trials int    `json:"trials"`
+}
+type c06RaceImpl struct {
+	Lost int `json:"lost"`
+}
+
+// c06CacheRace: on the real util.Cache, ClearExpired races a Set that renews an expired key.
+// Un-timed goroutines, real clock (an entry must really be expired); the trial count is fixed.
+// Before "fix: cache: ClearExpired no longer deletes an entry that was renewed after the scan"
+// about 1.6 of 1000 such trials lost the fresh entry.
+func c06CacheRace(trials int) int {
+	const workers = 4
+	var lost atomic.Int64
+	var all sync.WaitGroup
+	for w := 0; w < workers; w++ {
+		n := trials / workers
+		if w == 0 {
+			n += trials % workers
+		}
+		all.Add(1)
+		go func() {
+			defer all.Done()
+			for i := 0; i < n; i++ {
+				c := util.NewCache[int](time.Hour)
+				for j := 0; j < 50; j++ { // more expired entries make the scan longer
+					c.Set(string(rune('a'+j)), j, time.Nanosecond)
+				}
+				c.Set("w", 1, time.Nanosecond)
+				for t0 := time.Now(); time.Since(t0) < 2*time.Nanosecond; {
+				}
+				var wg sync.WaitGroup
+				wg.Add(2)
+				go func() { defer wg.Done(); c.ClearExpired() }()
+				go func() { defer wg.Done(); c.Set("w", 2, time.Hour) }()
+				wg.Wait()
+				if v, ok := c.Get("w"); !ok || v != 2 {
+					lost.Add(1)
+				}
+			}
+		}()
+	}
+	all.Wait()
+	return int(lost.Load())
+}
+
+// c06CoordRace: the same race through a real, started coordinator in a bubble.  51 reports
+// are accepted at 20.137 s (window 5 s: expired at 25.137 s, not yet collected); the cache GC
+// ticks at 30 s, and at that very virtual instant — i.e. really concurrently — the script
+// accepts one of the work ids again.  The acceptance must still be known afterwards.
+func c06CoordRace(t *testing.T, trials int) int {
+	lost := 0
+	r := NewRng(97)
+	wks := make([]*c06Work, 51)
+	for i := range wks {
+		wks[i] = c06NewWork(r, i%2)
+	}
+	for i := 0; i < trials; i++ {
+		synctest.Test(t, func(t *testing.T) {
+			ctx := context.Background()
+			prov := &c06Events{start: time.Now()}
+			c := coordinator.NewCoordinator(prov, utg, config.OffchainConfig{PerformLockoutWindow: 5000}, quietLogger)
+			go c.Start(ctx)
+			synctest.Wait()
+			time.Sleep(20*time.Second + 137*time.Millisecond)
+			synctest.Wait()
+			for _, wk := range wks {
+				c.Accept(c06Reported(c06Up{W: wk.W, UID: wk.UID, B: 7}))
+			}
+			time.Sleep(10*time.Second - 137*time.Millisecond) // wake up together with the GC tick
+			up := c06Reported(c06Up{W: wks[50].W, UID: wks[50].UID, B: 3})
+			ok := c.Accept(up)
+			synctest.Wait()
+			if !ok || !c.ShouldTransmit(up) {
+				lost++
+			}
+			c.Close()
+			synctest.Wait()
+		})
+	}
+	return lost
+}
+
+func c06RaceCases(t *testing.T, em *Emitter) {
+	n := tierN(30000, 300000)
+	em.Emit("stress", c06RaceInput{Kind: "cache-race", Trials: n}, c06RaceImpl{Lost: c06CacheRace(n)})
+	m := tierN(10000, 100000)
+	em.Emit("stress", c06RaceInput{Kind: "coordinator-gc-race", Trials: m}, c06RaceImpl{Lost: c06CoordRace(t, m)})
+}
+
 // ---------------------------------------------------------------- entry points
 
 func c06RunAll(t *testing.T, prop string, edge []c06Input, gen func(r *Rng, em *Emitter, i int) c06Input, n int) {
@@ -888,6 +983,15 @@ func c06RunAll(t *testing.T, prop string, edge []c06Input, gen func(r *Rng, em *
 	}
 	names, raws, replayOnly := corpusInputs(t, prop)
 	for i, raw := range raws {
+		var rc c06RaceInput
+		if json.Unmarshal(raw, &rc) == nil && rc.Kind != "" { // replay of a stress case
+			if rc.Kind == "cache-race" {
+				em.Emit(names[i], rc, c06RaceImpl{Lost: c06CacheRace(rc.Trials)})
+			} else {
+				em.Emit(names[i], rc, c06RaceImpl{Lost: c06CoordRace(t, rc.Trials)})
+			}
+			continue
+		}
 		var in c06Input
 		if err := json.Unmarshal(raw, &in); err != nil {
 			t.Fatalf("%s: %v", names[i], err)
@@ -900,8 +1004,8 @@ func c06RunAll(t *testing.T, prop string, edge []c06Input, gen func(r *Rng, em *
 	for _, in := range edge {
 		run("edge", in)
 	}
-	// Fork: NewRng(s) and NewRng(s+1) are the same splitmix stream shifted by one output
-	r := NewRng(seed()).Fork()
+	c06RaceCases(t, em)
+	r := NewRng(seed())
 	for i := 0; i < n; i++ {
 		run("gen", gen(r, em, i))
 	}
